@@ -127,9 +127,9 @@ int fclose(FILE *fp)
 {
     int i = v_stream_index(fp);
     v_fclose_calls++;
-    V_ASSERT(i >= 0, "MODEL fclose: not a stream returned by fopen");
+    V_ASSERT(i >= 0, "STDIO MISUSE fclose: not a stream returned by fopen");
     if (i < 0) return EOF;
-    V_ASSERT(v_st[i].open, "MODEL fclose: stream already closed (double close)");
+    V_ASSERT(v_st[i].open, "STDIO MISUSE fclose: stream already closed (double close)");
     v_flush_stream(&v_st[i]);
     v_st[i].open = 0;
     v_open_streams--;
@@ -162,9 +162,9 @@ int vfprintf(FILE *fp, const char *fmt, va_list ap)
     int dest = (fp == stdout) ? V_DEST_STDOUT : (fp == stderr) ? V_DEST_STDERR : V_DEST_FILE;
     int i = (dest == V_DEST_FILE) ? v_stream_index(fp) : -1;
     if (dest == V_DEST_FILE) {
-        V_ASSERT(i >= 0 && v_st[i].open, "MODEL fprintf: stream is not open");
+        V_ASSERT(i >= 0 && v_st[i].open, "STDIO MISUSE fprintf: stream is not open (use after close)");
         if (i < 0) return -1;
-        V_ASSERT(v_st[i].writable, "MODEL fprintf: stream not opened for writing");
+        V_ASSERT(v_st[i].writable, "STDIO MISUSE fprintf: stream not opened for writing");
     }
     struct v_wrec scratch;
     struct v_wrec *r = (v_nw < V_NW) ? &v_w[v_nw] : &scratch;
@@ -212,7 +212,7 @@ int printf(const char *fmt, ...)
 size_t fread(void *buf, size_t size, size_t nmemb, FILE *fp)
 {
     int i = v_stream_index(fp);
-    V_ASSERT(i >= 0 && v_st[i].open && v_st[i].readable, "MODEL fread: stream not open for reading");
+    V_ASSERT(i >= 0 && v_st[i].open && v_st[i].readable, "STDIO MISUSE fread: stream not open for reading");
     if (i < 0 || size == 0 || nmemb == 0) return 0;
     struct v_stream *s = &v_st[i];
     size_t want = size * nmemb, avail = s->len - s->pos, n = (want < avail) ? want : avail;
@@ -234,7 +234,7 @@ void clearerr(FILE *fp) { int i = v_stream_index(fp); if (i >= 0) { v_st[i].err 
 int fseek(FILE *fp, long off, int whence)
 {
     int i = v_stream_index(fp);
-    V_ASSERT(i >= 0 && v_st[i].open, "MODEL fseek: stream not open");
+    V_ASSERT(i >= 0 && v_st[i].open, "STDIO MISUSE fseek: stream not open");
     if (i < 0) return -1;
     if (v_choice() & 1) { errno = v_errno_choice(); return -1; }
     struct v_stream *s = &v_st[i];
@@ -248,7 +248,7 @@ int fseek(FILE *fp, long off, int whence)
 long ftell(FILE *fp)
 {
     int i = v_stream_index(fp);
-    V_ASSERT(i >= 0 && v_st[i].open, "MODEL ftell: stream not open");
+    V_ASSERT(i >= 0 && v_st[i].open, "STDIO MISUSE ftell: stream not open");
     if (i < 0) return -1;
     if (v_choice() & 1) { errno = v_errno_choice(); return -1; }
     return (long)v_st[i].pos;
@@ -257,7 +257,7 @@ long ftell(FILE *fp)
 char *fgets(char *buf, int size, FILE *fp)
 {
     int i = v_stream_index(fp);
-    V_ASSERT(i >= 0 && v_st[i].open && v_st[i].readable, "MODEL fgets: stream not open for reading");
+    V_ASSERT(i >= 0 && v_st[i].open && v_st[i].readable, "STDIO MISUSE fgets: stream not open for reading");
     if (i < 0 || size <= 0) return NULL;
     struct v_stream *s = &v_st[i];
     if (v_choice() & 1) { s->err = 1; return NULL; }
@@ -278,7 +278,7 @@ char *fgets(char *buf, int size, FILE *fp)
 ssize_t getline(char **lineptr, size_t *n, FILE *fp)
 {
     int i = v_stream_index(fp);
-    V_ASSERT(i >= 0 && v_st[i].open && v_st[i].readable, "MODEL getline: stream not open for reading");
+    V_ASSERT(i >= 0 && v_st[i].open && v_st[i].readable, "STDIO MISUSE getline: stream not open for reading");
     if (i < 0) return -1;
     struct v_stream *s = &v_st[i];
     if (*lineptr == NULL) {                 /* getline allocates even when it then fails (POSIX: caller frees) */
@@ -320,7 +320,7 @@ int socket(int domain, int type, int protocol)
 int connect(int fd, const struct sockaddr *addr, socklen_t len)
 {
     v_connect_calls++;
-    V_ASSERT(fd == V_SOCK_FD && v_sock_open > 0, "MODEL connect: not an open socket");
+    V_ASSERT(fd == V_SOCK_FD && v_sock_open > 0, "DESCRIPTOR MISUSE connect: not an open socket");
     v_sock_addrlen = (int)len;
     if (addr != NULL && addr->sa_family == AF_LOCAL) {
         const struct sockaddr_un *un = (const struct sockaddr_un *)addr;
@@ -335,7 +335,7 @@ int connect(int fd, const struct sockaddr *addr, socklen_t len)
 ssize_t send(int fd, const void *buf, size_t n, int flags)
 {
     v_send_calls++;
-    V_ASSERT(fd == V_SOCK_FD && v_sock_open > 0, "MODEL send: not an open socket");
+    V_ASSERT(fd == V_SOCK_FD && v_sock_open > 0, "DESCRIPTOR MISUSE send: not an open socket");
     v_send_flags = flags;
     struct v_wrec scratch;
     struct v_wrec *r = (v_nw < V_NW) ? &v_w[v_nw] : &scratch;
@@ -350,7 +350,7 @@ ssize_t send(int fd, const void *buf, size_t n, int flags)
 int close(int fd)
 {
     v_close_calls++;
-    V_ASSERT(fd == V_SOCK_FD && v_sock_open > 0, "MODEL close: descriptor is not open (double close or foreign descriptor)");
+    V_ASSERT(fd == V_SOCK_FD && v_sock_open > 0, "DESCRIPTOR MISUSE close: descriptor is not open (double close or foreign descriptor)");
     if (fd == V_SOCK_FD && v_sock_open > 0) v_sock_open--;
     return (v_choice() & 1) ? -1 : 0;
 }
